@@ -4,33 +4,19 @@ use crate::support::*;
 use core::cmp::Ordering;
 pub mod ty {
     #![deny(warnings)]
-    #![allow(dead_code, unused_imports)]
+    #![allow(dead_code, unused_imports, non_snake_case)]
     use crate::support::{A, B, C, Good, Bad, m_eq, m_cmp, m_pcmp, m_hash, m_fmt, m_clone, m_clone_c, m_into, g_eq, g_cmp, g_pcmp, g_hash, g_fmt};
     use educe::Educe;
-
-    // names at the derive site that shadow everything the generated code might be tempted to write unqualified
-    #[allow(non_camel_case_types)] pub struct Option; pub struct Result; pub struct Ordering; pub struct Clone; pub struct Copy;
-    pub struct Default; pub struct Debug; pub struct PartialEq; pub struct Eq; pub struct PartialOrd; pub struct Ord; pub struct Hash;
-    pub struct Hasher; pub struct Into; pub struct From; pub struct Deref; pub struct DerefMut; pub struct Formatter; pub struct String;
-    pub struct Vec; pub struct Box; pub struct PhantomData; pub struct Sized; pub struct Send; pub struct Iterator; pub struct Self_;
-    #[allow(non_snake_case)] pub fn Some() {} #[allow(non_snake_case)] pub fn None() {} #[allow(non_snake_case)] pub fn Ok() {} #[allow(non_snake_case)] pub fn Err() {}
-    pub fn drop() {} pub mod core {} pub mod std {} pub mod alloc {} pub mod fmt {} pub mod cmp {} pub mod hash {} pub mod clone {} pub mod marker {}
-    #[allow(unused_macros)] macro_rules! stringify { ($($t:tt)*) => { "SHADOWED" } }
-    #[allow(unused_macros)] macro_rules! unreachable { ($($t:tt)*) => { () } }
-    #[allow(unused_macros)] macro_rules! panic { ($($t:tt)*) => { () } }
-    #[allow(unused_macros)] macro_rules! matches { ($($t:tt)*) => { true } }
-    #[allow(unused_macros)] macro_rules! write { ($($t:tt)*) => { () } }
-    #[allow(unused_macros)] macro_rules! format_args { ($($t:tt)*) => { () } }
-    #[allow(unused_macros)] macro_rules! assert { ($($t:tt)*) => { () } }
 #[derive(Educe)]
-#[repr(u8)]
-#[educe(Eq, Ord, PartialEq)]
-pub enum T { A(#[educe(Ord = false)] A<0>, #[educe(Ord(rank = 8))] A<1>, #[educe(Ord(ignore(true)))] A<0>) }
+#[repr(C, u8)]
+#[educe(Debug)]
+#[educe(Eq, PartialEq, Ord)]
+pub enum T { None, B { #[educe(Debug(ignore))] c: A<0> }, Some(#[educe(Ord(rank("-6")))] #[educe(Debug(ignore = false))] A<0>, #[educe(Ord(rank(5)))] #[educe(Debug = false)] A<1>), C { #[educe(Ord(method(m_cmp)))] c: A<0>, #[educe(Ord(ignore = true))] _c: A<1>, #[educe(Debug(ignore = true), Ord = false)] other: A<2> } }
 }
 pub use ty::T;
 impl PartialOrd for T { fn partial_cmp(&self, o: &Self) -> Option<Ordering> { Some(::core::cmp::Ord::cmp(self, o)) } }
-pub fn values() -> Vec<T> { vec![T::A(A(0), A(0), A(0)), T::A(A(0), A(0), A(1)), T::A(A(0), A(0), A(7)), T::A(A(0), A(1), A(0)), T::A(A(0), A(1), A(1)), T::A(A(0), A(1), A(7)), T::A(A(0), A(7), A(0)), T::A(A(0), A(7), A(1)), T::A(A(0), A(7), A(7)), T::A(A(1), A(0), A(0)), T::A(A(1), A(0), A(1)), T::A(A(1), A(0), A(7)), T::A(A(1), A(1), A(0)), T::A(A(1), A(1), A(1)), T::A(A(1), A(1), A(7)), T::A(A(1), A(7), A(0)), T::A(A(1), A(7), A(1)), T::A(A(1), A(7), A(7)), T::A(A(7), A(0), A(0)), T::A(A(7), A(0), A(1)), T::A(A(7), A(0), A(7)), T::A(A(7), A(1), A(0)), T::A(A(7), A(1), A(1)), T::A(A(7), A(1), A(7)), T::A(A(7), A(7), A(0)), T::A(A(7), A(7), A(1)), T::A(A(7), A(7), A(7))] }
-pub fn show(x: &T) -> String { #[allow(unused_variables)] match x { T::A(p0, p1, p2) => format!("A({},{},{})", sv(p0), sv(p1), sv(p2)) } }
-pub fn o_disc(x: &T) -> i128 { match x { T::A(_, _, _) => 0 } }
-pub fn o_cmp(a: &T, b: &T) -> Ordering { match (a, b) { (T::A(a0, a1, a2), T::A(b0, b1, b2)) => { let c = ::core::cmp::Ord::cmp(a1, b1); if c != Ordering::Equal { return c; } Ordering::Equal } } }
+pub fn values() -> Vec<T> { vec![T::None, T::B { c: A(0) }, T::B { c: A(1) }, T::B { c: A(7) }, T::Some(A(0), A(0)), T::Some(A(0), A(1)), T::Some(A(0), A(7)), T::Some(A(1), A(0)), T::Some(A(1), A(1)), T::Some(A(1), A(7)), T::Some(A(7), A(0)), T::Some(A(7), A(1)), T::Some(A(7), A(7)), T::C { c: A(1), _c: A(1), other: A(7) }, T::C { c: A(7), _c: A(0), other: A(0) }, T::C { c: A(7), _c: A(7), other: A(0) }, T::C { c: A(7), _c: A(0), other: A(7) }, T::C { c: A(0), _c: A(1), other: A(1) }, T::C { c: A(7), _c: A(1), other: A(0) }, T::C { c: A(7), _c: A(7), other: A(7) }, T::C { c: A(0), _c: A(7), other: A(0) }, T::C { c: A(0), _c: A(1), other: A(0) }] }
+pub fn show(x: &T) -> String { #[allow(unused_variables)] match x { T::None => format!("None()"), T::B { c: p0 } => format!("B({})", sv(p0)), T::Some(p0, p1) => format!("Some({},{})", sv(p0), sv(p1)), T::C { c: p0, _c: p1, other: p2 } => format!("C({},{},{})", sv(p0), sv(p1), sv(p2)) } }
+pub fn o_disc(x: &T) -> i128 { match x { T::None => 0, T::B { c: _ } => 1, T::Some(_, _) => 2, T::C { c: _, _c: _, other: _ } => 3 } }
+pub fn o_cmp(a: &T, b: &T) -> Ordering { match (a, b) { (T::None, T::None) => {  Ordering::Equal }, (T::B { c: a0 }, T::B { c: b0 }) => { let c = ::core::cmp::Ord::cmp(a0, b0); if c != Ordering::Equal { return c; } Ordering::Equal }, (T::Some(a0, a1), T::Some(b0, b1)) => { let c = ::core::cmp::Ord::cmp(a0, b0); if c != Ordering::Equal { return c; } let c = ::core::cmp::Ord::cmp(a1, b1); if c != Ordering::Equal { return c; } Ordering::Equal }, (T::C { c: a0, _c: a1, other: a2 }, T::C { c: b0, _c: b1, other: b2 }) => { let c = m_cmp(a0, b0); if c != Ordering::Equal { return c; } Ordering::Equal }, _ => o_disc(a).cmp(&o_disc(b)) } }
 pub fn run(out: &mut Out) { let vs = values(); for (i, a) in vs.iter().enumerate() { for (j, b) in vs.iter().enumerate() { let e = o_cmp(a, b); let g = ::core::cmp::Ord::cmp(a, b); out.check(g == e, "ord_18", "cmp", || format!("cmp({}, {}) = {:?} expected {:?}", show(a), show(b), g, e)); } } }
